@@ -248,6 +248,48 @@ Section Commit.
     Ok (fst s, snd r ++ snd s).
 End Commit.
 
+(** ---- Bucket.spill's write-back of a child bucket: Cursor.seek(name) + Cursor.node() materialise the path to the leaf
+    that holds the child's entry, then node.put(name, name, value, 0, BucketLeafFlag) ---- *)
+(** searchNode / searchPage: the last position whose key is <= the sought key (0 if none) *)
+Definition seek_index (l : list inode) (key : bytes) : nat :=
+  let idx := search (length l) (key_ge l key) in
+  let exact := match nth_error l idx with Some i => beq (i_key i) key | None => false end in
+  if negb exact && (0 <? idx)%nat then (idx - 1)%nat else idx.
+
+Fixpoint put_at_key (fuel : nat) (t : nt) (key v : bytes) (flags : N) : res nt :=
+  match fuel with O => OutOfFuel | S f =>
+    match materialize t with NT h ins kids =>
+      if h_leaf h then
+        (* "misplaced bucket header" / "unexpected bucket header flag" panics of Bucket.spill *)
+        match ilookup key ins with
+        | Some x => if N.odd (i_flags x) then
+                      let? n' := put (h_pgid h + 2) {| n_leaf := true; n_unbal := h_unbal h; n_inodes := ins |} key key v 0 flags in
+                      Ok (NT h (n_inodes n') [])
+                    else Panic
+        | None => Panic
+        end
+      else
+        let i := seek_index ins key in
+        match nth_error kids i with
+        | None => Panic
+        | Some c => let? c' := put_at_key f c key v flags in Ok (NT h ins (replace_nth i c' kids))
+        end
+    end
+  end.
+
+Section CommitParent.
+  Variable ps : N.
+  Variable fill : N.
+  (** a bucket with child buckets: rebalance, write back the value of every child whose root was materialised
+      ([children]: name and new value - the 16-byte header of a paged child, Bucket.write of an inline one), then spill *)
+  Definition commit_parent (fuel : nat) (t : nt) (order : list N) (children : list (bytes * bytes)) : res (nt * list ev) :=
+    let? r := rebalance_all ps fill fuel t order in
+    let? t2 := fold_left (fun (a : res nt) kv => let? a' := a in put_at_key fuel a' (fst kv) (snd kv) bucket_leaf_flag)
+                         children (Ok (fst r)) in
+    let? s := spill_root ps fill fuel t2 in
+    Ok (fst s, snd r ++ snd s).
+End CommitParent.
+
 (** ---- what a tree means ---- *)
 Fixpoint flatten (fuel : nat) (t : nt) : list inode :=
   match fuel with O => [] | S f =>
